@@ -433,7 +433,7 @@ pub fn run(ctx: &Ctx) -> i32 {
     });
     let ev = Evidence {
         level: "exploration",
-        rule: "Positions: seeded playouts of the rules model at all stages, constructed tactical/terminal positions, sparse endgames; kept when the unpruned reference fits its node budget. Of five sims two search a general position with find_best_move to depth 1..3, one a promotion-choice position (pawn on the 7th, both kings near the promotion square: stalemate tricks and mating under-promotions) to depth 2..3 (a third of these are instead positions with more than 128 legal moves - five to eight queens - to depth 1..2, a sixth middlegame positions with a single legal move at the root, a sixth positions in which promoting to a queen stalemates; a quarter of the promotion positions carry a halfmove clock of 96..99), two run one fixed-depth search at depth 4..5 on a sparse position (accepted only when no deeper cached result was reused), each fault-free under two key sets and under five buggified-cache configurations (probe-miss 1%/10%/50%, store-drop 0/10%/30%). Oracle: norm(score)==M and the move attains M. A case = (position, depth, mode, fault configuration) that was compared; all are non-trivial. One general position in nine is chosen among 24 candidates (pawn phalanxes far up the board, sparse endgames) as the one whose static evaluation is farthest from the bare material count.".into(),
+        rule: "Positions: seeded playouts of the rules model at all stages, constructed tactical/terminal positions, sparse endgames; kept when the unpruned reference fits its node budget. Of five sims two search a general position with find_best_move to depth 1..3, one a promotion-choice position (pawn on the 7th, both kings near the promotion square: stalemate tricks and mating under-promotions) to depth 2..3 (a third of these are instead positions with more than 128 legal moves - five to eight queens - to depth 1..2, a sixth middlegame positions with a single legal move at the root, a sixth positions in which promoting to a queen stalemates; a quarter of the promotion positions carry a halfmove clock of 96..99), two run one fixed-depth search at depth 4..5 on a sparse position (accepted only when no deeper cached result was reused), each fault-free under two key sets and under five buggified-cache configurations (probe-miss 1%/10%/50%, store-drop 0/10%/30%). Oracle: norm(score)==M and the move attains M. A case = (position, depth, mode, fault configuration) that was compared; all are non-trivial. One general position in nine is chosen among 24 candidates (pawn phalanxes far up the board, sparse endgames) as the one whose static evaluation is farthest from the bare material count. One general position in ten is a position in which some move mates by a discovered check.".into(),
         extra: serde_json::Map::new(),
         assumptions: vec![
             "reference M takes the engine's move generator, make_move, static evaluation and full-window quiescence as given".into(),
